@@ -25,6 +25,7 @@ EXPLANATION = (
     "task-waker registration are reachable only through &mut receivers up to the public API, no Clone/Copy of the "
     "collections, WakerList built only by its constructor; R3.7 vtable functions are non-generic, unsafe Send/Sync impls "
     "exist only for WakerList. NOT decided: data-race freedom as a whole-program fact, dependency internals.")
+WITNESSES = "quick"  # E3 compile_fail witnesses (tier in which they run)
 ASSUMPTIONS = [
     "dev-profile MIR at mir-opt-level=0 represents the source",
     "cordyceps::MpscQueue / diatomic_waker::DiatomicWaker / spin::SpinMutex are themselves race-free as documented",
